@@ -325,5 +325,11 @@ def r8_borrowed_status_survives_the_write(chk):
     chk.ob('C19.R8', 'compile/borrowed-stores', len(bor) == 1, where(r.mod, r.fn), '%d stores of borrowed' % len(bor))
 
 
+def r9_wellformedness(chk):
+    rels = sorted(r for r in chk.model.modules if r.startswith(('pysmi/borrower/',)))
+    common.wellformedness(chk, 'C19.R9', rels, floor=4)
+
+
+
 RULES = [r1_borrow_loop, r2_hand_over, r3_flavour, r4_requested_stay_eligible, r5_failed_map_consistency, r6_argument_agreement,
-         r7_borrower_order_is_fixed, r8_borrowed_status_survives_the_write]
+         r7_borrower_order_is_fixed, r8_borrowed_status_survives_the_write, r9_wellformedness]
